@@ -1,11 +1,11 @@
 package props
 
 import (
-	"strings"
 	"fmt"
 	"go/constant"
 	"go/token"
 	"go/types"
+	"strings"
 
 	"golang.org/x/tools/go/ssa"
 
@@ -122,8 +122,14 @@ func internalKeyLayout(c *Ctx, rule string) {
 	}
 }
 
-func isSliceHigh(v ssa.Value) bool { s, ok := v.(*ssa.Slice); return ok && s.High != nil && s.Low == nil }
-func isSliceLow(v ssa.Value) bool  { s, ok := v.(*ssa.Slice); return ok && s.Low != nil && s.High == nil }
+func isSliceHigh(v ssa.Value) bool {
+	s, ok := v.(*ssa.Slice)
+	return ok && s.High != nil && s.Low == nil
+}
+func isSliceLow(v ssa.Value) bool {
+	s, ok := v.(*ssa.Slice)
+	return ok && s.Low != nil && s.High == nil
+}
 
 // suffixWidths: constants K in `len(x) - K` expressions used as slice bounds in fn.
 func suffixWidths(fn *ssa.Function) map[int64]bool {
